@@ -1,14 +1,120 @@
-//! Glue between the stepping engine and the independent structural checker (pvfsck).
+//! Glue between the stepping engine and the independent structural checker (pvfsck, E4).
 
-use crate::hist::{Hist, R};
-use parity_db::Db;
-use pv::{dbutil::DbCfg, Report};
+use crate::hist::{fail, Hist, R};
+use parity_db::{ColumnOptions, CompressionType, Db};
+use pv::{
+	dbutil::{col_kind, DbCfg},
+	model::ColModel,
+	Report,
+};
+use pvfsck::{ColSpec, Expect};
 use std::collections::BTreeMap;
 
-pub fn run(_h: &mut Hist, _db: &Db, _rep: &mut Report) -> R<()> {
-	Ok(())
+pub fn col_spec(c: &ColumnOptions) -> ColSpec {
+	ColSpec {
+		btree: c.btree_index,
+		multitree: c.multitree,
+		ref_counted: c.ref_counted,
+		preimage: c.preimage,
+		uniform: c.uniform,
+		append_only: c.append_only,
+		compression: match c.compression {
+			CompressionType::NoCompression => 0,
+			CompressionType::Lz4 => 1,
+			CompressionType::Snappy => 2,
+		},
+	}
 }
 
-pub fn run_simple(_path: &std::path::Path, _cfg: &DbCfg, _model: &BTreeMap<Vec<u8>, Vec<u8>>, _rep: &mut Report) -> R<()> {
-	Ok(())
+fn report(r: pvfsck::FsckReport, rep: &mut Report, what: &str) -> R<()> {
+	rep.count("fsck_runs", 1);
+	rep.evaluations += 1 + r.stats.get("values_compared").copied().unwrap_or(0);
+	for (k, v) in &r.stats {
+		match k.as_str() {
+			"btree_depth" => {
+				rep.max("btree_depth", *v);
+				if *v >= 2 {
+					rep.count("tree_depth_ge2", 1);
+				}
+			},
+			"slots_live" | "slots_free" | "index_stale_entries" | "chains_multipart" | "refcount_entries" | "btree_nodes" | "tree_nodes" => rep.count(&format!("fsck_{}", k), *v),
+			"index_files" => rep.max("fsck_index_files", *v),
+			_ => {},
+		}
+	}
+	if r.errors.is_empty() {
+		return Ok(())
+	}
+	let class = r.errors[0].split(':').next().unwrap_or("unknown").to_string();
+	let lines: Vec<String> = r.errors.iter().take(6).cloned().collect();
+	fail(
+		format!("failure=fsck;class={}", class),
+		format!("structural check of the files failed ({}): {} problem(s): {}", what, r.errors.len(), lines.join(" | ")),
+	)
+}
+
+pub fn run(h: &mut Hist, db: &Db, rep: &mut Report) -> R<()> {
+	if h.entry_counts_unreliable || h.bg_err {
+		return Ok(())
+	}
+	let specs: Vec<ColSpec> = h.cfg.cols.iter().map(col_spec).collect();
+	let mut expect: Vec<Expect> = vec![];
+	for (ci, c) in h.cfg.cols.iter().enumerate() {
+		let ci8 = ci as u8;
+		if c.multitree {
+			let tm = h.trees.get(&ci8).unwrap();
+			// every live node must have a known address (it has been read back)
+			if tm.nodes.values().any(|n| n.addr.is_none()) {
+				expect.push(Expect::Unknown);
+				continue
+			}
+			let addr = |id: &u64| tm.addr_of(*id).unwrap();
+			let roots = tm
+				.roots
+				.iter()
+				.map(|(k, r)| (db.verif_hash_key(ci8, k), r.data.clone(), r.children.iter().map(addr).collect(), r.count as u32))
+				.collect();
+			let nodes = tm.nodes.iter().map(|(id, n)| (addr(id), n.data.clone(), n.children.iter().map(addr).collect(), n.refs)).collect();
+			expect.push(Expect::Tree { roots, nodes });
+			rep.count("fsck_multitree_columns", 1);
+		} else if c.btree_index {
+			let rc = matches!(h.model.cols[ci], ColModel::Rc(_));
+			let v = h
+				.model
+				.ordered(ci8)
+				.into_iter()
+				.map(|(k, v)| (k.clone(), v.clone(), if rc { h.model.count(ci8, k) as u32 } else { 1 }))
+				.collect();
+			expect.push(Expect::Btree(v));
+			rep.count("fsck_btree_columns", 1);
+			rep.count("fsck_btree_runs", 1);
+		} else {
+			let rc = matches!(h.model.cols[ci], ColModel::Rc(_));
+			let v = h
+				.model
+				.keys(ci8)
+				.iter()
+				.map(|k| (db.verif_hash_key(ci8, k), h.model.get(ci8, k).unwrap().clone(), if rc { h.model.count(ci8, k) as u32 } else { 1 }))
+				.collect();
+			expect.push(Expect::Hash(v));
+			rep.count("fsck_hash_columns", 1);
+		}
+	}
+	let dir = h.dir.path.join("db");
+	let r = pvfsck::check_dir(&dir, &specs, &expect);
+	let what = h.cfg.cols.iter().map(col_kind).collect::<Vec<_>>().join("|");
+	report(r, rep, &what)
+}
+
+/// Single plain column whose logical content is `model` (key -> value), used by the C06 sweep.
+pub fn run_simple(db: &Db, path: &std::path::Path, cfg: &DbCfg, model: &BTreeMap<Vec<u8>, Vec<u8>>, rep: &mut Report) -> R<()> {
+	let c = &cfg.cols[0];
+	let specs = vec![col_spec(c)];
+	let expect = if c.btree_index {
+		Expect::Btree(model.iter().map(|(k, v)| (k.clone(), v.clone(), 1)).collect())
+	} else {
+		Expect::Hash(model.iter().map(|(k, v)| (db.verif_hash_key(0, k), v.clone(), 1)).collect())
+	};
+	let r = pvfsck::check_dir(path, &specs, &[expect]);
+	report(r, rep, &col_kind(c))
 }
